@@ -14,6 +14,19 @@ From TucModel Require Import Base.Bytes Base.ListX Model.Bounds Model.Scan Model
 Import ListNotations.
 Local Open Scope Z_scope.
 
+
+(** the option tests of [cut_str] in one order, whichever way round the source writes them *)
+Ltac norm_bools o :=
+  repeat match goal with
+         | |- context [(?a && o_compress o)%bool] => rewrite (andb_comm a (o_compress o))
+         | |- context [(?a && o_join o)%bool] =>
+             lazymatch a with negb _ => fail | _ => rewrite (andb_comm a (o_join o)) end
+         | |- context [(btype_eqb (o_btype o) BLines || btype_eqb (o_btype o) BFields)%bool] =>
+             rewrite (orb_comm (btype_eqb (o_btype o) BLines) (btype_eqb (o_btype o) BFields))
+         | |- context [(?a || o_json o)%bool] => rewrite (orb_comm a (o_json o))
+         | |- context [(?x && btype_eqb (o_btype o) BChars)%bool] => rewrite (andb_comm x (btype_eqb (o_btype o) BChars))
+         end.
+
 (** one bound of the model's output loop, with the separator that follows it *)
 Definition gpiece (o : opt) (line : bytes) (fields : list mtch) (b : ubound) : rres :=
   match (match try_into_range b (length fields) with
@@ -167,18 +180,18 @@ Proof.
       rewrite (tie_maybe_replace o _ t Ht), Ht. cbn [bind]. rewrite emit_json_text.
       destruct (o_json o).
       + destruct (json_text t) as [j|]; [|reflexivity].
-        destruct (o_join o && negb (blast b))%bool; cbn [app]; rewrite ?app_nil_r, <- ?app_assoc; reflexivity.
-      + destruct (o_join o && negb (blast b))%bool; cbn [app]; rewrite ?app_nil_r, <- ?app_assoc; reflexivity.
+        destruct (o_join o), (blast b); cbn [andb negb app]; rewrite ?app_nil_r, <- ?app_assoc; reflexivity.
+      + destruct (o_join o), (blast b); cbn [andb negb app]; rewrite ?app_nil_r, <- ?app_assoc; reflexivity.
     - unfold fallback_for. destruct (bfb b) as [f|]; cbn [bind opt_unwrap].
       + rewrite emit_json_text. destruct (o_json o).
         * destruct (json_text f) as [j|]; [|reflexivity].
-          destruct (o_join o && negb (blast b))%bool; cbn [app]; rewrite ?app_nil_r, <- ?app_assoc; reflexivity.
-        * destruct (o_join o && negb (blast b))%bool; cbn [app]; rewrite ?app_nil_r, <- ?app_assoc; reflexivity.
+          destruct (o_join o), (blast b); cbn [andb negb app]; rewrite ?app_nil_r, <- ?app_assoc; reflexivity.
+        * destruct (o_join o), (blast b); cbn [andb negb app]; rewrite ?app_nil_r, <- ?app_assoc; reflexivity.
       + destruct (o_fallback o) as [f|]; [|reflexivity].
         rewrite emit_json_text. destruct (o_json o).
         * destruct (json_text f) as [j|]; [|reflexivity].
-          destruct (o_join o && negb (blast b))%bool; cbn [app]; rewrite ?app_nil_r, <- ?app_assoc; reflexivity.
-        * destruct (o_join o && negb (blast b))%bool; cbn [app]; rewrite ?app_nil_r, <- ?app_assoc; reflexivity. }
+          destruct (o_join o), (blast b); cbn [andb negb app]; rewrite ?app_nil_r, <- ?app_assoc; reflexivity.
+        * destruct (o_join o), (blast b); cbn [andb negb app]; rewrite ?app_nil_r, <- ?app_assoc; reflexivity. }
   match goal with |- context [loopM ?F bs _] =>
     destruct (loop_bridge o line fields buf lh sb d b1 (mkL bs lf) F HF bs stdout Hnz) as [E1 E2] end.
   destruct (out_loop o line fields bs) as [r| | |].
@@ -238,7 +251,7 @@ Lemma s17_spec (o : opt) (line : bytes) (fields : list mtch) stdout buf lh sb d 
                 end
   end.
 Proof.
-  intros Hre Hnz Hn g. subst g. cbv beta delta [gen_cut_str_s17] iota zeta. fold (unpack_wanted o).
+  intros Hre Hnz Hn g. subst g. cbv beta delta [gen_cut_str_s17] iota zeta. norm_bools o. fold (unpack_wanted o).
   destruct (unpack_wanted o); cbn [andb].
   - unfold to_list, iter_ublist.
     match goal with |- context [anyM ?F _] =>
@@ -306,8 +319,8 @@ Proof.
       pose proof (complement_list_nonempty _ _ _ Eu) as Hne. destruct (items u) as [|x0 xs] eqn:Ei; [contradiction|].
       rewrite <- Ei. apply Hs17. apply (complement_list_nz _ _ _ Eu Hnz).
     - apply Hs17. exact Hnz. }
-  destruct (o_only_delimited o); cbn [andb]; [|exact Main].
-  destruct (Z.eqb_spec (Z.of_nat (length fields)) 1) as [E|E]; destruct (Nat.eqb_spec (length fields) 1) as [E'|E']; try lia; [reflexivity | exact Main].
+  destruct (o_only_delimited o); destruct (Z.eqb_spec (Z.of_nat (length fields)) 1) as [E|E]; destruct (Nat.eqb_spec (length fields) 1) as [E'|E'];
+    cbn [andb]; try lia; first [reflexivity | exact Main].
 Qed.
 
 Lemma s10_spec (o : opt) (line : bytes) (fields : list mtch) buf lh sb d :
@@ -325,7 +338,7 @@ Proof.
   intros Hre Hb Hnz Hn g. subst g.
   assert (Eb : btype_eqb (o_btype o) BChars = false) by (destruct (o_btype o); try reflexivity; exfalso; apply Hb; reflexivity).
   assert (E : gen_cut_str_s10 line o [] (map mz fields) buf [o_eol o] lh sb d = gen_cut_str_s11 line o [] (map mz fields) buf [o_eol o] lh sb d)
-    by (cbv beta delta [gen_cut_str_s10] iota zeta; rewrite Eb; reflexivity).
+    by (cbv beta delta [gen_cut_str_s10] iota zeta; rewrite Eb, ?andb_false_r; reflexivity).
   rewrite E. exact (s11_spec o line fields buf lh sb d Hre Hnz Hn).
 Qed.
 
@@ -342,7 +355,7 @@ Lemma s10_chars (o : opt) (line : bytes) (fields0 : list mtch) buf lh sb d :
   = gen_cut_str_s11 line o [] (map mz (drop_outer fields0)) buf [o_eol o] lh sb d.
 Proof.
   intros Hb. cbv beta delta [gen_cut_str_s10] iota zeta. rewrite Hb. cbn [btype_eqb andb]. rewrite map_length. unfold drop_outer.
-  destruct (Z.ltb_spec 2 (Z.of_nat (length fields0))) as [H|H]; destruct (Nat.ltb_spec 2 (length fields0)) as [H'|H']; try lia; [|reflexivity].
+  destruct (Z.ltb_spec 2 (Z.of_nat (length fields0))) as [H|H]; destruct (Nat.ltb_spec 2 (length fields0)) as [H'|H']; try lia; cbn [andb]; [|reflexivity].
   rewrite removelast_map. destruct (removelast fields0) as [|x xs] eqn:E.
   - destruct fields0 as [|a [|b l]]; cbn in H'; try lia. cbn [removelast] in E. destruct l; discriminate.
   - cbn [map vec_drain1 bind]. rewrite <- tl_removelast, E. reflexivity.
@@ -446,7 +459,7 @@ Proof.
   { (* the record is empty once trimmed *) destruct (o_only_delimited o); cbn [negb of_rres_cut app]; reflexivity. }
   rewrite <- El1 in *. clear El1 c l1'. cbv iota beta.
   cbv beta delta [gen_cut_str_s4 gen_cut_str_s5 gen_cut_str_s6 gen_cut_str_s7 gen_cut_str_s8] iota zeta.
-  rewrite Hre. cbn [andb]. fold (compresses o).
+  rewrite Hre. cbn [andb]. norm_bools o. fold (compresses o).
   (* -p *)
   assert (E8 : (if compresses o
                 then bind (gen_compress_delimiter l1 (o_delim o) buf0)
@@ -524,7 +537,7 @@ Proof.
   assert (Eb : btype_eqb (o_btype o) BChars = false) by (destruct (o_btype o); try reflexivity; exfalso; apply Hb; reflexivity).
   pose proof (fun text => maybe_replace_re o r text Hre) as Hmr.
   unfold cut_str. rewrite Hre.
-  cbv beta delta [gen_cut_str] iota zeta. rewrite Hre. cbv iota beta.
+  cbv beta delta [gen_cut_str] iota zeta. rewrite Hre. cbv iota beta. norm_bools o.
   (* --regex with -p or -j needs -r *)
   destruct (o_replace o) as [nd|] eqn:Er.
   2:{ destruct (o_compress o) eqn:Ec; cbn [andb orb]; [eexists; reflexivity|].
@@ -548,7 +561,7 @@ Proof.
       destruct l1 as [|c l1'] eqn:El1; [destruct (o_only_delimited o); cbn [negb of_rres_cut app]; reflexivity|].
       rewrite <- El1 in *. clear El1 c l1'. cbv iota beta.
       cbv beta delta [gen_cut_str_s4 gen_cut_str_s5 gen_cut_str_s6 gen_cut_str_s7 gen_cut_str_s8] iota zeta.
-      rewrite Hre, Ec. cbn [andb]. cbv beta delta [gen_cut_str_s9] iota zeta. rewrite Hre, Eb. cbn [opt_unwrap bind].
+      norm_bools o. rewrite Hre, Ec. cbn [andb]. cbv beta delta [gen_cut_str_s9] iota zeta. rewrite Hre, Eb. cbn [opt_unwrap bind].
       assert (Ecz : compresses o = false) by (unfold compresses; rewrite Ec; reflexivity).
       unfold rfields, rline2 in Hf. rewrite Ecz in Hf. fold l1 in Hf.
       set (fields := fields_of_matches (if o_greedy o then re_find_iter (RPlus r) l1 else re_find_iter r l1) l1) in *.
@@ -596,7 +609,7 @@ Proof.
   destruct l1 as [|c l1'] eqn:El1; [destruct (o_only_delimited o); cbn [negb of_rres_cut app]; reflexivity|].
   rewrite <- El1 in *. clear El1 c l1'. cbv iota beta.
   cbv beta delta [gen_cut_str_s4 gen_cut_str_s5 gen_cut_str_s6 gen_cut_str_s7 gen_cut_str_s8] iota zeta.
-  rewrite Hre, Er. cbn [andb opt_unwrap bind]. fold (compresses o).
+  rewrite Hre, Er. cbn [andb opt_unwrap bind]. norm_bools o. fold (compresses o).
   unfold rfields, rline2 in Hf. rewrite Er in Hf. fold l1 in Hf. specialize (H2 nd eq_refl). unfold rline2 in H2. rewrite Er in H2. fold l1 in H2.
   destruct (compresses o) eqn:Ecz.
   - (* -p: every run of matches rewritten to nd, then the literal splitter on nd *)
@@ -682,7 +695,7 @@ Proof.
     - cbn [andb]. rewrite !andb_true_r. destruct (o_compress o); cbn [orb]; [eexists; reflexivity|].
       destruct (o_join o); [eexists; reflexivity | exact H]. }
   unfold cut_str. rewrite Hre, Ht, Hb.
-  cbv beta delta [gen_cut_str] iota zeta. rewrite Hre. cbv iota beta.
+  cbv beta delta [gen_cut_str] iota zeta. rewrite Hre. cbv iota beta. norm_bools o.
   apply Hpre.
   cbv beta delta [gen_cut_str_s1 gen_cut_str_s2] iota zeta. rewrite Ht.
   cbv beta delta [gen_cut_str_s3] iota zeta.
@@ -691,7 +704,7 @@ Proof.
   replace (if o_greedy o then Some ms else Some ms) with (Some ms) by (destruct (o_greedy o); reflexivity).
   set (fields := drop_outer (fields_of_matches ms (c :: l0))) in *.
   cbv beta delta [gen_cut_str_s4 gen_cut_str_s5 gen_cut_str_s6 gen_cut_str_s7 gen_cut_str_s8] iota zeta.
-  rewrite Hre, Hb. cbn [btype_eqb orb andb]. rewrite andb_false_r.
+  norm_bools o. rewrite Hre, Hb. cbn [btype_eqb orb andb]. rewrite andb_false_r.
   cbv beta delta [gen_cut_str_s9] iota zeta. rewrite Hre. cbn [andb opt_unwrap bind].
   assert (Hfill : forall rb, rx_matches rb (c :: l0) = Some ms ->
             bind (gen_fill_regex fields0 (c :: l0) rb) (fun '(_, m) => gen_cut_str_s10 (c :: l0) o [] m buf0 [o_eol o] [] true (o_delim o))
